@@ -566,6 +566,9 @@ func CollectionBuiltins() []BuiltinModel {
 			}
 			fromMap := false
 			for _, k := range a[1].Elems {
+				if _, ok := k.AsKey(); !ok && cur.K == KNil {
+					return su // a path element that is no key at all (nil, a collection): outside the documented domain
+				}
 				switch cur.K {
 				case KMap:
 					key, ok := k.AsKey()
@@ -583,6 +586,11 @@ func CollectionBuiltins() []BuiltinModel {
 				case KNil:
 					if !fromMap {
 						return su // nil stored in a vector: what lies "below" it is not documented
+					}
+					for _, k2 := range a[1].Elems {
+						if _, ok := k2.AsKey(); !ok {
+							return su // a later path element is no key at all
+						}
 					}
 					return sv(Nil) // a missing key (or nil value) of a map earlier on the path
 				default:
